@@ -86,3 +86,17 @@ void h_retry(void)
   if (iora_exc == EXC_runtime_error && G_attempts > 1) { IORA_CANARY("h_retry: idempotent retried then failed"); }
   if (iora_exc == EXC_runtime_error && G_attempts == 0) { IORA_CANARY("h_retry: initialisation failed"); }
 }
+
+#ifdef IORA_SEARCH
+/* SEARCH: concrete 8-byte method token for REPLAY when M1 fails */
+void h_search(void)
+{
+  uint8_t IN[8]; size_t IN_N = nondet_size_t();
+  IORA_NONDET_BYTES(IN, 8);
+  __CPROVER_assume(IN_N <= 8);
+  IORA_TRUE = 1;
+  iora_sv method = { (const char *)IN, IN_N };
+  bool got = HttpClient_isIdempotentMethod(method);
+  __CPROVER_assert(got == IDEM(method), "M1 classification equals RFC 9110 9.2.2");
+}
+#endif
